@@ -147,6 +147,22 @@ func opsFor(round, k int, jt, pt, tt reflect.Type) []c09Op {
 			}
 			return sb.String()
 		}},
+		{"json.Tokenizer(reused after an error, two alive at once)", func() string {
+			var sb strings.Builder
+			t := json.NewTokenizer([]byte(`[[1,2}`)) // ends with a mismatched closer
+			for t.Next() {
+			}
+			t.Reset(tokdoc) // the failed tokenizer is reused ...
+			u := json.NewTokenizer(tokdoc) // ... while another one is alive
+			for {
+				a, b := t.Next(), u.Next()
+				if !a && !b {
+					break
+				}
+				fmt.Fprintf(&sb, "%s/%d/%d/%v|%s/%d/%d/%v;", t.Value, t.Depth, t.Index, t.IsKey, u.Value, u.Depth, u.Index, u.IsKey)
+			}
+			return sb.String()
+		}},
 		{"proto.Marshal+Size", func() string {
 			b, err := proto.Marshal(pv.Interface())
 			return fmt.Sprintf("%d|%d|%v", len(b), proto.Size(pv.Interface()), err)
